@@ -121,3 +121,15 @@ Proof.
   rewrite (dedup_by_app_fresh base [] req Hb) by (intros x _ []).
   rewrite app_nil_r. reflexivity.
 Qed.
+
+(* ---- history.latest_generation_number ----------------------------------------------------------------------------- *)
+Theorem src_latest_generation_number_is_model gens : src_latest_generation_number gens = latest_generation_number gens.
+Proof.
+  unfold src_latest_generation_number, latest_generation_number.
+  assert (H : forall acc : N,
+    fold_left (fun latest_number hash_list => if negb (N.eqb (g_no hash_list) 0) then g_no hash_list else latest_number) gens acc
+    = fold_left (fun acc g => if N.eqb (g_no g) 0 then acc else g_no g) gens acc).
+  { induction gens as [|g gens IH]; intros acc; cbn [fold_left]; [reflexivity|].
+    destruct (N.eqb (g_no g) 0); cbn [negb]; apply IH. }
+  apply H.
+Qed.
